@@ -140,7 +140,7 @@ package common
 //@   props C05
 //@   sweep C01
 //@   ensures[is-lua-visibility] result <==> visible(varInfo, loc.StartLine, loc.StartColumn, loc.EndLine, loc.EndColumn)
-//@   ensures[not-visible-in-own-initialiser-of-any-kind] typeis(varInfo.ReferExp, "*ast.BinopExp")
+//@   ensures[C05,not-visible-in-own-initialiser-of-any-kind] typeis(varInfo.ReferExp, "*ast.BinopExp")
 //@        && locContains(as(varInfo.ReferExp, "*ast.BinopExp").Loc.StartLine, as(varInfo.ReferExp, "*ast.BinopExp").Loc.StartColumn,
 //@                       as(varInfo.ReferExp, "*ast.BinopExp").Loc.EndLine, as(varInfo.ReferExp, "*ast.BinopExp").Loc.EndColumn,
 //@                       loc.StartLine, loc.StartColumn, loc.EndLine, loc.EndColumn) ==> !result
